@@ -149,6 +149,12 @@ def _statement_form_lookup(bbody, keys_var, x, table):
             if isinstance(st, ast.Assign) and norm(st.targets[0]) == x and isinstance(st.value, ast.Subscript) \
                     and norm(st.value.value) == keys_var:
                 use = st
+        if pos is None and use is not None:
+            # `if x not in T: x = keys[<lookup>(keys, x)]` -- the conditional expression spelled as a statement
+            verdict, desc = _lookup_idiom(use.value, keys_var, x, table)
+            if verdict == "bad" and "bisect_right" in desc and "offset" not in desc:
+                verdict, desc = "ok", "membership test, then bisect_right (x not a key => same as bisect_left)"
+            return use, verdict, "if x not in T: x = " + desc
         if pos is None or use is None:
             continue
         iv = pos.targets[0].id
